@@ -84,6 +84,10 @@ def _shape_programs() -> dict[str, dict[str, Any]]:
     add("nchw_symbolic_hw_pool", lambda x: x - jnp.sum(x, axis=(1, 2), keepdims=True) / (x.shape[1] * x.shape[2]), [("B", "H", "W", 3)], kwargs={"inputs_as_nchw": [0], "outputs_as_nchw": [0]})
     add("nchw_symbolic_hw_dims_as_values", lambda x: x * 0.0 + x.shape[1] * 100.0 + x.shape[2], [(2, "H", "W", 3)], kwargs={"inputs_as_nchw": [0]})
     add("symbolic_hw_tokens_plain", lambda x: lax.reshape(x, (x.shape[0], x.shape[1] * x.shape[2], 3)) * 2.0, [("B", "H", "W", 3)])
+    add("floordiv_and_mod_same_operands", lambda x: jnp.zeros((2,), x.dtype) + jnp.stack([jnp.float32(x.shape[0] // 3), jnp.float32(x.shape[0] % 3)]) + x.sum() * 0.0, [("B", 3)])
+    add("floordiv_mod_in_shapes", lambda x: jnp.concatenate([x[: x.shape[0] // 2], x[: x.shape[0] % 2 + 1]], axis=0) * 2.0, [("B", 3)])
+    add("max_and_min_of_two_dims", lambda a, b: (a.sum() + b.sum()) * 0.0 + jnp.stack([jnp.float32(max(a.shape[0], b.shape[0])), jnp.float32(min(a.shape[0], b.shape[0]))]) if False else (a.sum() + b.sum()) * 0.0 + jnp.stack([jnp.float32(jnp.maximum(a.shape[0], b.shape[0])), jnp.float32(jnp.minimum(a.shape[0], b.shape[0]))]), [("B", 3), ("N", 3)])
+    add("dim_div_mod_mul_chain", lambda x: x.reshape(-1)[: (x.shape[0] * 3) // 2] * 1.0 + jnp.float32((x.shape[0] * 3) % 2), [("B", 3)])
     add("three_symbols", lambda a, b, c: a[:, None, None] * b[None, :, None] + c[None, None, :], [("B",), ("N",), ("M",)])
     add("reshape_pair_B4_4N", lambda a, b: (a.reshape(4, -1).sum(1) + b.reshape(-1, 4).sum(0)), [("B", 4), (4, "N")])
     return P
